@@ -267,8 +267,9 @@ def addr_of(cx, n, addr_taken=False):
     return None
 
 
-INLINABLE = {"libwifi_tag_iterator_init", "libwifi_tag_iterator_next"}
-INLINE_IN = {"libwifi_check_tag", "libwifi_remove_tag", "libwifi_bss_tag_parser", "libwifi_sta_tag_parser"}
+INLINABLE = {"libwifi_tag_iterator_init", "libwifi_tag_iterator_next", "find_ns"}
+INLINE_IN = {"libwifi_check_tag", "libwifi_remove_tag", "libwifi_bss_tag_parser", "libwifi_sta_tag_parser",
+             "ieee80211_radiotap_iterator_next"}     # find_ns(iterator, oui, subns): the same object under the same name
 FNMAP = {}          # name -> (function node, source bytes, path)
 
 
@@ -717,6 +718,9 @@ def sites_of(cx, fn, kprefix=""):
             return calls_in(n)
         if k in ("ImplicitCastExpr", "CStyleCastExpr", "ParenExpr") and inner:
             return visit(inner[0])
+        if k == "GotoStmt":
+            # not executable by exec (stays an SOther); the target label is named so that Base/CGoto.v's execg can find it
+            return ["(SOther %s)" % coq_s("goto " + labels.get(n.get("targetLabelDeclId"), "?"))]
         if k == "BreakStmt":
             return ["SBreak"]
         if k == "SwitchStmt" and len(inner) >= 2:
@@ -780,6 +784,16 @@ def sites_of(cx, fn, kprefix=""):
         return ["(SSwitch %s %s %s %s)" % (coq_s(kk), scrut, cs, lst(default))]
 
     body = [c for c in fn["inner"] if c.get("kind") == "CompoundStmt"]
+    labels = {}
+
+    def find_labels(x):
+        if isinstance(x, dict):
+            if x.get("kind") == "LabelStmt" and x.get("declId"):
+                labels[x["declId"]] = str(x.get("name", "?"))
+            for v in x.get("inner") or []:
+                find_labels(v)
+    for c in body:
+        find_labels(c)
     tree = block(body[0]) if body else []
     return out, tree
 
@@ -854,9 +868,13 @@ def emit(repo, gen, cflags, write_if_changed, build):
                 d1, d2 = astq.ast_of(cflags, path, "libwifi_"), astq.ast_of(cflags, path, "ieee80211_radiotap_")
                 annotate_files(d1)
                 annotate_files(d2)
+                # the static helper the radiotap iterator calls (inlined at its call site)
+                srcb = src if isinstance(src, (bytes, bytearray)) else str(src).encode()
+                d3 = astq.ast_of(cflags, path, "find_ns") if b"find_ns(" in srcb else []
+                annotate_files(d3)
                 fns = []
                 seen = set()
-                for d in d1 + d2:
+                for d in d1 + d2 + d3:
                     for n in astq.walk(d):
                         if n.get("kind") == "FunctionDecl" and n.get("name") and n["name"] not in seen and any(
                                 c.get("kind") == "CompoundStmt" for c in n.get("inner", [])):
